@@ -115,6 +115,7 @@ func main() {
 		x.rep.CorrCases++
 	}
 	fm, hm, bm := rulesh.FlowMod(), rulesh.HotMod(), rulesh.BrkMod()
+	rulesh.RegisterGenerators(fm, hm, bm)
 	fk, hk, bk := flowKit(fm), hotKit(hm), brkKit(bm)
 	one := func(id int, corr bool) {
 		fam, mod := id/metaBase, (id%metaBase)/modSpan
